@@ -226,6 +226,7 @@ def parseQOp (a : List String) : M QOp := do
   | "clear" => return .clear
   | "len" => return .len
   | "eqf" => return .eqFresh
+  | "snap" => return .snapshot
   | "iter" => return .iter
   | "riter" => return .riter
   | "ends" => return .ends
